@@ -60,6 +60,22 @@ impl<F> Stream<F> {
         self.buf_offset_from_start + (self.buffer.cursor() as u64)
     }
 
+    /// Verification hook (only with `--cfg cfb_verif`): the state of this
+    /// handle's cache as `(buffer offset from the start of the stream, cursor
+    /// within the buffer, filled length, allocated length, holds unwritten
+    /// data, length of the stream as this handle knows it)`.  Read-only.
+    #[cfg(cfb_verif)]
+    pub fn verif_state(&self) -> (u64, usize, usize, usize, bool, u64) {
+        (
+            self.buf_offset_from_start,
+            self.buffer.cursor(),
+            self.buffer.filled_len(),
+            self.buffer.allocated_len(),
+            self.flusher.is_some(),
+            self.total_len,
+        )
+    }
+
     fn flush_changes(&mut self) -> io::Result<()> {
         if let Some(flusher) = self.flusher.take() {
             if let Err(err) = flusher.flush_changes(self) {
